@@ -186,7 +186,9 @@ async fn actor_inner(p: OpPlan, ldap: &mut Ldap, completed: &std::sync::Arc<std:
         "\"ev\":\"Call\",\"o\":\"o{}\",\"k\":\"{}\",\"t\":{},\"ad\":{},\"tg\":{}",
         o, kname, p.tmo, p.adapted, p.target
     ));
-    if p.tmo != 0 {
+    if p.tmo == -2 {
+        ldap.with_timeout(Duration::MAX); // "no practical limit": must behave like no timeout at all
+    } else if p.tmo != 0 {
         ldap.with_timeout(Duration::from_millis(p.tmo.max(0) as u64));
     }
     match p.kind {
@@ -318,10 +320,11 @@ struct Profile {
     stall: bool,
     walk_away: bool,
     aderr: bool,
+    split: bool,
 }
 
 fn profile(name: &str) -> Profile {
-    let mut p = Profile { timeouts: false, faults: false, orphans: false, burst: false, unbind: false, many_items: false, stall: false, walk_away: false, aderr: false };
+    let mut p = Profile { timeouts: false, faults: false, orphans: false, burst: false, unbind: false, many_items: false, stall: false, walk_away: false, aderr: false, split: false };
     match name {
         "plain" => {}
         "timeouts" => p.timeouts = true,
@@ -337,6 +340,10 @@ fn profile(name: &str) -> Profile {
         "long" => p.many_items = true,
         "stall" => {
             p.stall = true;
+            p.timeouts = true
+        }
+        "split" => {
+            p.split = true;
             p.timeouts = true
         }
         "aderr" => {
@@ -412,6 +419,21 @@ fn push_chunked(io: &MockIo, bytes: &[u8], rng: &mut StdRng) {
             }
         }
         _ => io.push_bytes(bytes),
+    }
+}
+
+/// Complete frames no LDAP client can decode: a top-level element that is not an LDAPMessage; an envelope whose protocolOp
+/// ends in the middle of a child's header (a lone tag octet; a long-form length cut short); a child longer than its parent;
+/// an empty envelope.
+fn undecodable_frame(id: i64, variant: u32) -> Vec<u8> {
+    let idb = ber::int(id);
+    let env = |op: Vec<u8>| ber::tlv(0x30, &ber::cat(&[idb.clone(), op]));
+    match variant {
+        0 => vec![0x04, 0x03, 0x41, 0x42, 0x43],
+        1 => env(ber::tlv(0x6f, &[0x0a, 0x01, 0x06, 0x04, 0x00, 0x04])),
+        2 => env(ber::tlv(0x6f, &[0x0a, 0x01, 0x06, 0x04, 0x00, 0x04, 0x82, 0x01])),
+        3 => env(ber::tlv(0x61, &[0x0a, 0x01, 0x00, 0x04, 0x00, 0x04, 0x05])),
+        _ => vec![0x30, 0x00],
     }
 }
 
@@ -492,8 +514,20 @@ fn run_scenario(seed: u64, prof: &Profile, out: &mut Vec<String>, rep: &mut Repo
         let max_ops = rng.gen_range(2..=8);
         let steps = rng.gen_range(8..40);
         let max_items = if prof.many_items { 40 } else { 3 };
+        // profile `split`: the first part of a response has been delivered, the rest (and the SrvSend event: for the model a
+        // message is sent when its last octet is) follows at a later step - client operations and ticks happen in between
+        let mut held: Option<(Vec<u8>, String)> = None;
         for _step in 0..steps {
             let choice = rng.gen_range(0..100);
+            macro_rules! flush_held {
+                () => {
+                    if let Some((rest, ev)) = held.take() {
+                        emit(ev);
+                        io.push_bytes(&rest);
+                        settle().await;
+                    }
+                };
+            }
             if choice < 35 && nops < max_ops && net_up && !unbound && ldap.is_some() {
                 nops += 1;
                 let kind = match rng.gen_range(0..12) {
@@ -505,7 +539,11 @@ fn run_scenario(seed: u64, prof: &Profile, out: &mut Vec<String>, rep: &mut Repo
                 };
                 let target = if kind == Kind::Abandon { known_ids[rng.gen_range(0..known_ids.len())] } else { 0 };
                 let tmo: i64 = if prof.timeouts && (matches!(kind, Kind::Single | Kind::Search) || rng.gen_bool(0.5)) && rng.gen_bool(0.45) {
-                    if rng.gen_bool(0.2) { -1 } else { rng.gen_range(1..=4) }
+                    match rng.gen_range(0..20) {
+                        0..=3 => -1,
+                        4 => -2,
+                        _ => rng.gen_range(1..=4),
+                    }
                 } else {
                     0
                 };
@@ -530,6 +568,7 @@ fn run_scenario(seed: u64, prof: &Profile, out: &mut Vec<String>, rep: &mut Repo
                 }
                 tasks.push((nops, tokio::spawn(actor(plan, ldap.as_ref().unwrap().clone(), completed.clone()))));
             } else if choice < 75 && !pending.is_empty() && net_up {
+                flush_held!();
                 let i = rng.gen_range(0..pending.len());
                 let p = pending[i].clone();
                 tok += 1;
@@ -541,14 +580,23 @@ fn run_scenario(seed: u64, prof: &Profile, out: &mut Vec<String>, rep: &mut Repo
                     "done"
                 };
                 let bytes = response_bytes(p.id, p.app, typ, tok, &mut rng);
-                emit(format!("\"ev\":\"SrvSend\",\"id\":{},\"typ\":\"{}\",\"tok\":{}", p.id, typ, tok));
-                push_chunked(&io, &bytes, &mut rng);
+                let ev = format!("\"ev\":\"SrvSend\",\"id\":{},\"typ\":\"{}\",\"tok\":{}", p.id, typ, tok);
+                if prof.split && bytes.len() > 4 && rng.gen_bool(0.4) {
+                    let cut = rng.gen_range(1..bytes.len());
+                    emit(format!("\"ev\":\"SrvPartial\",\"id\":{},\"sent\":{},\"of\":{}", p.id, cut, bytes.len()));
+                    io.push_bytes(&bytes[..cut]);
+                    held = Some((bytes[cut..].to_vec(), ev));
+                } else {
+                    emit(ev);
+                    push_chunked(&io, &bytes, &mut rng);
+                }
                 if typ == "res" || typ == "done" {
                     pending.remove(i);
                 } else {
                     pending[i].sent_items += 1;
                 }
             } else if choice < 80 && prof.orphans && net_up && orphans < 3 {
+                flush_held!();
                 // a response nobody waits for: ID 0 or the ID of an operation the server already answered
                 let done_ids = completed.lock().unwrap().clone();
                 let id = if done_ids.is_empty() || rng.gen_bool(0.3) { 0 } else { done_ids[rng.gen_range(0..done_ids.len())] };
@@ -561,6 +609,7 @@ fn run_scenario(seed: u64, prof: &Profile, out: &mut Vec<String>, rep: &mut Repo
                     push_chunked(&io, &bytes, &mut rng);
                 }
             } else if choice < 82 && prof.orphans && net_up && !faulted && !pending.is_empty() && rng.gen_bool(0.25) {
+                flush_held!();
                 // a response whose message ID is not a MessageID at all (above 2^31-1, here 2^32+id or 2^64+id) but whose
                 // low bits equal the ID of an operation that is waiting: it must reach nobody. It is not a well-formed
                 // LDAPMessage envelope, so for the model it is an undecodable frame.
@@ -586,11 +635,12 @@ fn run_scenario(seed: u64, prof: &Profile, out: &mut Vec<String>, rep: &mut Repo
                 faulted = true;
                 resume(&io, false);
             } else if choice < 84 && prof.faults && net_up && !faulted {
+                flush_held!();
                 net_up = false;
                 faulted = true;
                 let searches: Vec<Pending> = pending.iter().filter(|p| p.app == 3).cloned().collect();
-                let fault_kind = rng.gen_range(0..5);
-                if !(fault_kind == 4 && !searches.is_empty()) {
+                let fault_kind = rng.gen_range(0..6);
+                if !(fault_kind == 4 && !searches.is_empty()) && fault_kind != 5 {
                     resume(&io, false); // the fault ends the stall: the mock accepts writes on a half-closed connection
                     stalled = false;
                 }
@@ -603,6 +653,13 @@ fn run_scenario(seed: u64, prof: &Profile, out: &mut Vec<String>, rep: &mut Repo
                         let bytes = ber::message(p.id, ber::tlv(0x65, &ber::cat(&[ber::tlv(0x0a, &[0]), ber::octets(b"")])), None);
                         push_chunked(&io, &bytes, &mut rng);
                         pending.retain(|x| x.id != p.id);
+                        net_up = true;
+                    }
+                    5 => {
+                        // a complete frame that cannot be decoded, the peer keeping the connection open afterwards
+                        emit("\"ev\":\"SrvGarbage\",\"open\":true".to_string());
+                        let id = pending.first().map(|p| p.id).unwrap_or(1);
+                        push_chunked(&io, &undecodable_frame(id, rng.gen_range(0..5)), &mut rng);
                         net_up = true;
                     }
                     0 | 4 => {
@@ -647,7 +704,11 @@ fn run_scenario(seed: u64, prof: &Profile, out: &mut Vec<String>, rep: &mut Repo
             // what did the client write?
             absorb_written(&io, &mut pending, &mut known_ids);
             if io.shutdown_seen() && net_up {
-                // the peer reacts to the client's close by closing its side
+                // the peer reacts to the client's close by closing its side (what it had begun to write goes out first)
+                if let Some((rest, ev)) = held.take() {
+                    emit(ev);
+                    io.push_bytes(&rest);
+                }
                 net_up = false;
                 settle().await;
                 emit("\"ev\":\"SrvClose\",\"how\":\"eof\"".to_string());
@@ -656,6 +717,10 @@ fn run_scenario(seed: u64, prof: &Profile, out: &mut Vec<String>, rep: &mut Repo
             }
         }
         // wind down: let timers fire, then finish the scenario
+        if let Some((rest, ev)) = held.take() {
+            emit(ev);
+            io.push_bytes(&rest);
+        }
         settle().await;
         for _ in 0..6 {
             now += 1;
@@ -920,6 +985,11 @@ fn run_script(n: u64, script: &[serde_json::Value], out: &mut Vec<String>, rep: 
                             io.fail_writes_at(w, std::io::ErrorKind::BrokenPipe);
                         }
                     }
+                }
+                "garbage-open" => {
+                    emit("\"ev\":\"SrvGarbage\",\"open\":true".to_string());
+                    let id = pending.first().map(|p| p.id).unwrap_or(1);
+                    io.push_bytes(&undecodable_frame(id, (n % 5) as u32));
                 }
                 "garbage" => {
                     emit("\"ev\":\"SrvGarbage\"".to_string());
